@@ -205,6 +205,29 @@ def inputs(ctx):
         if fmt == "WebVTT" and rng.random() < 0.4:
             inp["vtt_extras"] = True
         ins.append(inp)
+    # numbers as cue text, in every format; MicroDVD cues on the very first frames ({1}{1}, {0}{1},
+    # {1}{2}: only {0}{0} is the frame-rate header), with and without a header
+    for fmt in ("SRT", "WebVTT", "DFXP"):
+        cues = [{"b": _ms_to_hms(1000 * (k + 1), fmt, rng), "e": _ms_to_hms(1000 * (k + 1) + 500, fmt, rng), "dur": False, "txt": True}
+                for k in range(8)]
+        ins.append({"id": "nt%d" % n, "fmt": fmt, "cues": cues, "numtext": True})
+        n += 1
+    for first in ([1, 1], [0, 1], [1, 2], [2, 2], [1, 1, 2, 2]):
+        for fps, fps_text in (([25, 1], None), ([2997, 100], "29.97"), ([24, 1], "24.0")):
+            frames = [(first[0], first[1])] + ([(first[2], first[3])] if len(first) > 2 else []) + [(26, 50), (51, 75), (100, 130)]
+            cues = [{"b": {"kind": "frame", "n": D(a)}, "e": {"kind": "frame", "n": D(b)}, "dur": False, "txt": True} for a, b in frames]
+            for numtext in (True, False):
+                ins.append({"id": "nt%d" % n, "fmt": "MicroDVD", "fps": fps, "fps_text": fps_text, "cues": cues, "numtext": numtext})
+                n += 1
+    # DFXP: several divs of one language (own xml:lang or inherited), later divs holding earlier cues:
+    # captions come in document order, each with its own instants
+    for shape in ([[3, 4], [1, 2]], [[1, 5], [2, 3], [0, 4]], [[2], [1], [3]], [[5, 1], [4]]):
+        for dlang in ("en", None):
+            divs = [[{"b": _ms_to_hms(1000 * t + 100, "DFXP", rng), "e": _ms_to_hms(1000 * t + 800, "DFXP", rng), "dur": False, "txt": True}
+                     for t in d] for d in shape]
+            ins.append({"id": "dv%d" % n, "fmt": "DFXP", "cues": [c for d in divs for c in d], "divs": [len(d) for d in divs],
+                        "divlang": dlang})
+            n += 1
     # document block structure: every abstract document of MC_Blocks, laid out and read
     for k, doc in enumerate(ctx._blocks):
         ins.append({"id": "blk%d" % k, "k": "blocks", "fmt": doc["fmt"], "doc": doc})
@@ -251,6 +274,10 @@ def execute(inp):
     rec["cues"] = cues
     lang = inp.get("lang")
     text = lambda k, c: ["line %d" % k, "second"] if c["txt"] and k % 2 else (["line %d" % k] if c["txt"] else [])
+    if inp.get("numtext"):
+        # cue texts that are numbers (a countdown, a year, a score): text all the same
+        nums = ["3", "1984", "25", "1e3", "10", "23.976", "2", "1"]
+        text = lambda k, c: [nums[k % len(nums)]] if c["txt"] else []
     try:
         if fmt == "SRT":
             doc = render.srt_doc([(render.stamp(c["b"], ","), render.stamp(c["e"], ","), text(k, c))
@@ -281,7 +308,14 @@ def execute(inp):
             for k, c in enumerate(cues):
                 attrs = 'begin="%s" %s="%s"' % (render.stamp(c["b"]), "dur" if c["dur"] else "end", render.stamp(c["e"]))
                 ps.append((attrs, "<br/>".join(text(k, c))))
-            doc = render.dfxp_doc([("en", ps)])
+            if inp.get("divs"):
+                groups, at = [], 0
+                for m in inp["divs"]:
+                    groups.append((inp.get("divlang"), ps[at:at + m]))
+                    at += m
+                doc = render.dfxp_doc(groups)
+            else:
+                doc = render.dfxp_doc([("en", ps)])
             cs = pycaption.DFXPReader().read(doc)
             lg = "en"
         else:
